@@ -1,5 +1,6 @@
 """C04 -- Key commands put exactly the intended press/release events on the wire."""
 from __future__ import annotations
+import struct
 from impl import *  # noqa
 
 ID = "C04"
@@ -103,9 +104,21 @@ def run(ctx):
         slines.append(sl or "speckey press 0 0")
     mout = ctx.drive(mlines)
     sout = ctx.drive(slines)
+    # a second client whose server has acknowledged the QEMU extended key event pseudo-encoding (an update carrying the
+    # -258 rectangle): key commands still go out as plain 8-byte KeyEvents
+    client_q, trace_q = connect()
+    client_q.dataReceived(struct.pack("!BxH", 0, 1) + struct.pack("!HHHHi", 0, 0, 0, 0, -258))
+    del trace_q[:]
     for i, (op, fc, es) in enumerate(cases):
         key = keys[i]
         got = run_impl(client, trace, op, fc, key)
+        if i % 4 == 0:
+            got_q = run_impl(client_q, trace_q, op, fc, key)
+            ctx.count("cases_after_qemu_ack")
+            if got_q != got:
+                ctx.violate("key-events-after-qemu-ack", {"input": {"op": op, "force_caps": fc, "key": key, "server_acknowledged_qemu_extended_keys": True},
+                                                          "impl": got_q, "spec": (sout[i] if sout is not None else got),
+                                                          "how": "the same operation on a client that has received the QEMU extended-key pseudo-rectangle"})
         nt = (op, fc, key) if (len(es) >= 2 or fc) else None
         ctx.case({"op": op, "force_caps": fc, "key": key, "impl": got} if len(es) == 3 else None, key=nt)
         ctx.count("err" if got.startswith("err") else "ok")
